@@ -348,6 +348,14 @@ class Counter(nnx.Variable):
   pass
 
 
+class SubStat(nnx.BatchStat):
+  """A sub-class of BatchStat: exposed under `SubStat`, never under `batch_stats`."""
+
+
+class SubSubStat(SubStat):
+  """Two levels below BatchStat."""
+
+
 class SubParam(nnx.Param):
   """A Variable type two levels below Variable: must be exposed under its own name, not under `params`."""
 
@@ -930,6 +938,25 @@ def out_str(y):
 MUT_CHOICES = [False, False, ['batch_stats'], ['batch_stats'], True, ['batch_stats', 'cache']]
 
 
+LCOLS = ['batch_stats', 'SubStat', 'SubSubStat', 'Counter']
+
+
+def gen_lhistory(rng):
+  """ToLinen histories: `mutable` off, True, or any subset of the collections the generated modules use
+  (so a base type's collection can be mutable while a sub-class's is not, and the other way round)."""
+  out = []
+  for _ in range(rng.randrange(1, 5)):
+    k = rng.random()
+    if k < 0.2:
+      mut = False
+    elif k < 0.35:
+      mut = True
+    else:
+      mut = [c for c in LCOLS if rng.random() < 0.5] or [rng.choice(LCOLS)]
+    out.append((mut, [rng.randrange(-3, 4) for _ in range(6)]))
+  return out
+
+
 def gen_history(rng):
   return [(rng.choice(MUT_CHOICES), [rng.randrange(-3, 4) for _ in range(6)]) for _ in range(rng.randrange(1, 5))]
 
@@ -1162,6 +1189,10 @@ class NGen(nnx.Module):
         setattr(self, layer[1], SubParam(jnp.asarray(i + 1, jnp.int32)))
       elif kind == 'stat':
         setattr(self, layer[1], nnx.BatchStat(jnp.zeros((), jnp.int32), tag='s'))
+      elif kind == 'substat':
+        setattr(self, layer[1], SubStat(jnp.asarray(1, jnp.int32)))
+      elif kind == 'subsubstat':
+        setattr(self, layer[1], SubSubStat(jnp.asarray(2, jnp.int32)))
       elif kind == 'drop':
         self.rngs = rngs
       elif kind == 'sub':
@@ -1182,7 +1213,7 @@ class NGen(nnx.Module):
         x = x + c.value
       elif kind == 'uparam':
         x = x * getattr(self, layer[1]).value
-      elif kind == 'stat':
+      elif kind in ('stat', 'substat', 'subsubstat'):
         s = getattr(self, layer[1])
         s.value = s.value + jnp.sum(x) % 5 + 1
         x = x + s.value
@@ -1208,9 +1239,13 @@ def gen_nspec(rng, depth):
       layers.append(('linear', fresh('w'), rng.choice([2, 3]), rng.choice([None, None, ('a', 'b'), (None, 'm'), ('linen-part', ('p', None))])))
     elif k < 0.48:
       layers.append(('count', fresh('n')))
-    elif k < 0.6:
+    elif k < 0.56:
       layers.append(('stat', fresh('s')))
-    elif k < 0.7:
+    elif k < 0.63:
+      layers.append(('substat', fresh('t')))
+    elif k < 0.68:
+      layers.append(('subsubstat', fresh('v')))
+    elif k < 0.73:
       layers.append(('drop',))
     elif k < 0.8:
       layers.append(('uparam', fresh('u')))
@@ -1316,7 +1351,8 @@ def run_tolinen_case(ctx, spec, hist, placement, seeds, reqs, metas):
     for step, (mut, xs) in enumerate(hist):
       x = jnp.asarray(np.array(xs, np.int32).reshape(2, 3))
       c2 = dict(case, step=step)
-      mutable = False if mut is False else (True if mut is True else ['batch_stats', 'Counter'])
+      mutable = mut if isinstance(mut, bool) else [c for c in mut if c != 'cache'] or ['batch_stats']
+      ctx.count('tolinen_mutable', 'off' if mutable is False else ('all' if mutable is True else '+'.join(sorted(mutable))))
       kw = {} if mutable is False else {'mutable': mutable}
       snap = snapshot_vars(caller_vars)
       # model: decode what the caller holds (queue before the call; inputs are impl-side only)
@@ -1552,7 +1588,7 @@ SCENARIOS = {'f13': scenario_f13, 'custom-box': scenario_custom_box, 'partitione
 
 def _init_globals():
   global _BASE_REG
-  for t in (nnx.Param, nnx.BatchStat, nnx.Cache, nnx.Intermediate, nnx.Perturbation, UserVar0, UserVar1, Counter, nnx.RngKey, nnx.RngCount, SubParam):
+  for t in (nnx.Param, nnx.BatchStat, nnx.Cache, nnx.Intermediate, nnx.Perturbation, UserVar0, UserVar1, Counter, nnx.RngKey, nnx.RngCount, SubParam, SubStat, SubSubStat):
     TT.tok(t)
   _BASE_REG = reg_json()
 
@@ -1605,7 +1641,7 @@ def run(ctx):
   # part 3
   for i in range(90 * k):
     nspec = gen_nspec(rng, rng.choice([0, 1, 2]))
-    hist = gen_history(rng)
+    hist = gen_lhistory(rng)
     placement = 'alone' if i % 3 else 'linen-parent'
     seeds = [rng.randrange(100), rng.randrange(100)]
     case = {'kind': 'tolinen', 'spec': nspec, 'hist': [[m, xs] for m, xs in hist], 'placement': placement, 'seeds': seeds}
